@@ -47,3 +47,7 @@ CLAIMS["C12"] = (
  "runtime monitor with reference model: ReadMergeString + Patch compared with the RFC 7386 pseudocode on (target, patch) pairs",
  "Held on every executed pair (a quarter (quick) / all (thorough) of the product of an exhaustive family of small documents, all root kinds, random deeper pairs with nulls) apart from the two open known findings F15 (empty-object patch values) and F23 (root null), each recognised by classifier + deviation model.",
  TB, "DESIGN.md 5.12")
+CLAIMS["C13"] = (
+ "crash monitor: recover() around every public entry point in sacrificial worker processes (address-space limit, per-case journal attributing fatal errors), Go crash markers on the real binaries' stderr; hostile structured and damaged-text workloads",
+ "Held on every executed input: ~60k structurally valid diffs with arbitrary paths applied to a 40-document panel (1.2M Patch calls), all single-element hostile paths x contexts exhaustively, damaged jd / JSON Patch / merge / JSON / YAML texts read-applied-rendered, hostile YAML, and ~2.7k CLI runs (status in {0,1,2}, status 2 whenever the library rejects, no stack trace).",
+ TB + "; a finite sample of byte strings: absence of crashes on unexplored inputs is not claimed", "DESIGN.md 5.13")
